@@ -111,17 +111,18 @@ def walk_conformance(ctx, maxtok=3, keep=1.0, alphabet="full", faults=True):
         by_id[c["id"]] = c
         m = c["abs"]["model"]
         recs.append({"id": c["id"],
-                     "model": {"lay": m["lay"], "fell": m["fell"], "comps": m["comps"], "unused": m["unused"], "eflags": m["eflags"]},
+                     "model": {"lay": m["lay"], "fell": m["fell"], "comps": m["comps"], "unused": m["unused"], "eflags": m["eflags"],
+                               "wflags": m.get("wflags", [])},
                      "seccount": c["abs"]["seccount"] or [0],
-                     "obs": {k: o.get(k) for k in ("exc", "lay", "tracts", "unused", "eflags")}})
+                     "obs": {k: o.get(k) for k in ("exc", "lay", "tracts", "unused", "eflags", "wflags")}})
     ctx.validate("PlssWalkTrace", recs, {}, invariants=("Drift",))
     kinds = {}
     for cid, what in [(d[0], d[1] if len(d) > 1 else "?") for d in ctx.last_drift_details]:
         kinds[what] = kinds.get(what, 0) + 1
         c = by_id[cid]
         ctx.add_drift(1, {"what": what, "text": c["args"]["text"], "config": c["args"].get("config"),
-                          "layout": c["args"].get("layout"), "model": {k: c["abs"]["model"][k] for k in ("lay", "fell", "comps", "unused", "eflags")},
-                          "observed": {k: obs[cid].get(k) for k in ("lay", "raw", "raw_e")}})
+                          "layout": c["args"].get("layout"), "model": {k: c["abs"]["model"].get(k) for k in ("lay", "fell", "comps", "unused", "eflags", "wflags")},
+                          "observed": {k: obs[cid].get(k) for k in ("lay", "raw", "raw_e", "raw_w", "wflags")}})
     ctx.notes["walk_model_cases"] = ctx.notes.get("walk_model_cases", 0) + len(recs)
     ctx.notes["walk_model_drift_kinds"] = kinds
     return cases, obs
